@@ -106,12 +106,13 @@ def check(repo, res, tier):
         if not rets:
             res.bad('C14.G3', g, g.node, 'no value returned', '%s returns nothing' % q)
         for r in rets:
-            used = {n.attr for n in ast.walk(r.value) if isinstance(n, ast.Attribute)}
-            on_graph = 'graph' in canon.p(r.value, Frame(g))
+            prov = canon.p(r.value, Frame(g))
+            used = set(re.findall(r'\.(\w+)', prov))
+            on_graph = 'graph' in prov
             if used & other or not (used & role) or not on_graph:
-                res.bad('C14.G3', g, r, 'return %s' % ast.unparse(r.value),
+                res.bad('C14.G3', g, r, 'return %s' % short(prov),
                         '%s answers with %s: p precedes t iff t succeeds p no longer holds' % (
-                            q, ast.unparse(r.value)))
+                            q, short(prov)))
             else:
                 res.ok('C14.G3', g, r, '%s queries graph.%s' % (q, sorted(used & role)[0]))
 
@@ -218,6 +219,21 @@ def check_task_args(repo, canon, res, f, fr, tc, loop, ab, G, NODE):
                         'per node / do not carry the observation name' % (short(hp), missing or 'a concatenation'))
             else:
                 res.ok('C14.G2', helper, r, what, short(hp))
+        # the identifier is a function of (node, observation, clock) alone: no instance state
+        # read or written (a cache keyed on less than all three gives one id to two tasks)
+        state = []
+        for n in ast.walk(helper.node):
+            if isinstance(n, ast.Attribute) and isinstance(n.value, ast.Name) and n.value.id == 'self' \
+                    and not repo.methods_named(n.attr):
+                state.append(n)
+        if state:
+            n = state[0]
+            res.bad('C14.G2', helper, n, 'task id is a function of its arguments only',
+                    'the task identifier depends on instance state self.%s (%s): two tasks planned '
+                    'through the same model can receive the same or a foreign identifier' % (
+                        n.attr, 'written' if isinstance(n.ctx, ast.Store) else 'read'))
+        else:
+            res.ok('C14.G2', helper, helper.node, 'task id is a function of its arguments only')
         res.analysed(helper, 1)
     # predecessors
     okp = any(re.fullmatch(r'seq\[%s for %s\]' % (idcall('elem(%s)' % s), re.escape(s)),
